@@ -57,6 +57,16 @@ func scalarRangeGuards(conds []Cond) map[ssa.Value]*scalarGuard {
 		}
 		call, okc := bo.X.(*ssa.Call)
 		k, okk := constInt(bo.Y)
+		op := bo.Op
+		if !okc || !okk {
+			// mirrored: 0 <op> call
+			if c2, ok2 := bo.Y.(*ssa.Call); ok2 {
+				if k2, okk2 := constInt(bo.X); okk2 {
+					call, okc, k, okk = c2, true, k2, true
+					op = map[token.Token]token.Token{token.EQL: token.EQL, token.NEQ: token.NEQ, token.LSS: token.GTR, token.GTR: token.LSS, token.LEQ: token.GEQ, token.GEQ: token.LEQ}[bo.Op]
+				}
+			}
+		}
 		if !okc || !okk || k != 0 {
 			continue
 		}
@@ -67,14 +77,20 @@ func scalarRangeGuards(conds []Cond) map[ssa.Value]*scalarGuard {
 		switch cal.String() {
 		case "(*math/big.Int).Cmp":
 			if len(call.Call.Args) == 2 && isCurveOrder(call.Call.Args[1]) {
-				// need: cmp < 0
-				if (bo.Op == token.GEQ && !truth) || (bo.Op == token.LSS && truth) {
+				// need: x.Cmp(N) < 0
+				if (op == token.GEQ && !truth) || (op == token.LSS && truth) {
 					get(call.Call.Args[0]).cmpN = true
+				}
+			}
+			if len(call.Call.Args) == 2 && isCurveOrder(call.Call.Args[0]) {
+				// mirrored receiver: need N.Cmp(x) > 0
+				if (op == token.LEQ && !truth) || (op == token.GTR && truth) {
+					get(call.Call.Args[1]).cmpN = true
 				}
 			}
 		case "(*math/big.Int).Sign":
 			// need: sign != 0 (scalars are non-negative, so > 0 is equivalent)
-			if (bo.Op == token.EQL && !truth) || (bo.Op == token.NEQ && truth) || (bo.Op == token.GTR && truth) || (bo.Op == token.LEQ && !truth) {
+			if (op == token.EQL && !truth) || (op == token.NEQ && truth) || (op == token.GTR && truth) || (op == token.LEQ && !truth) {
 				get(call.Call.Args[0]).nonZero = true
 			}
 		}
